@@ -16,7 +16,6 @@ NOT_APPLICABLE = {
     "C19": "KL value/gradient/metric equal sample averages: numerical identity over generated Hamiltonians",
     "C20": "agreement with the exact linear-Gaussian posterior is a numerical statement about results",
     "C28": "agreement of two model implementations and variance normalisation across resolutions: numerical",
-    "C31": "index/parent/child/coordinate round-trips over generated grids: integer-array arithmetic on run-time shapes, no finite static abstraction in reach",
     "C34": "exactness of Lanczos/SLQ/ELBO estimators in the limit: numerical",
 }
 
